@@ -573,7 +573,20 @@ func dispatch(op, pat string, args []string, a *argTrack) string {
 		default:
 			panic("harness: bad alias " + pat)
 		}
-		return showPt(r.Affine())
+		// the operands of Add that are not its destination, and the receiver of Affine, are read-only
+		showPP := func(x *babyjub.PointProjective) string { return ffVal(x.X) + "," + ffVal(x.Y) + "," + ffVal(x.Z) }
+		if (pat == "" || pat == "n") && (showPP(pp) != showPP(p.Projective()) || showPP(qp) != showPP(q.Projective())) {
+			return showPt(r.Affine()) + "!ARGMUT(operand of PointProjective.Add)"
+		}
+		r0 := showPP(r)
+		a1 := showPt(r.Affine())
+		if showPP(r) != r0 {
+			return a1 + "!ARGMUT(receiver of PointProjective.Affine)"
+		}
+		if a2 := showPt(r.Affine()); a2 != a1 {
+			return a1 + "!second-Affine-differs:" + a2
+		}
+		return a1
 	case "bj.mul":
 		need(args, 3)
 		s := a.Int(args[0])
